@@ -64,7 +64,7 @@ func sweepCmd(args []string) {
 	inl := fs.Int("inline", 3, "inline depth")
 	fs.Parse(args)
 	t0 := time.Now()
-	p, err := vc.Load("/repo", pkgPatterns(*pkgs)...)
+	p, err := vc.Load(repoDir, pkgPatterns(*pkgs)...)
 	if err != nil {
 		fmt.Println("load:", err)
 		os.Exit(2)
@@ -139,12 +139,12 @@ func contractsCmd(args []string) {
 	match := fs.String("match", ".", "regexp on function names")
 	dump := fs.String("dump", "", "dump failed scripts")
 	fs.Parse(args)
-	p, err := vc.Load("/repo", vc.ModPath, vc.ModPath+"/pkg/...", vc.ModPath+"/pp")
+	p, err := vc.Load(repoDir, vc.ModPath, vc.ModPath+"/pkg/...", vc.ModPath+"/pp")
 	if err != nil {
 		fmt.Println(err)
 		os.Exit(2)
 	}
-	cs, files, err := vc.LoadContracts("/repo")
+	cs, files, err := vc.LoadContracts(repoDir)
 	if err != nil {
 		fmt.Println("contracts:", err)
 		os.Exit(2)
@@ -202,12 +202,12 @@ func init() {
 		pkgs := fs.String("pkgs", "cl", "comma separated short package names")
 		match := fs.String("match", ".", "regexp on function names")
 		fs.Parse(args)
-		p, err := vc.Load("/repo", vc.ModPath, vc.ModPath+"/pkg/...", vc.ModPath+"/pp")
+		p, err := vc.Load(repoDir, vc.ModPath, vc.ModPath+"/pkg/...", vc.ModPath+"/pp")
 		if err != nil {
 			fmt.Println(err)
 			os.Exit(2)
 		}
-		cs, _, err := vc.LoadContracts("/repo")
+		cs, _, err := vc.LoadContracts(repoDir)
 		if err != nil {
 			fmt.Println("contracts:", err)
 			os.Exit(2)
